@@ -8,6 +8,7 @@ import (
 	"net/url"
 	"os"
 	"reflect"
+	"sort"
 	"strings"
 	"sync"
 	"testing"
@@ -377,19 +378,67 @@ func TestVerifC05(t *testing.T) {
 		"empty-response":   "",
 		"json-then-junk":   "HTTP/1.1 200 OK\r\n" + ct + "\r\n{\"type\":\"Note\"",
 		"huge-header":      "HTTP/1.1 200 OK\r\nX: " + strings.Repeat("h", 1<<20) + "\r\n" + ct + "\r\n{\"type\":\"Note\"}",
+		"bare-lf-garbage":  "garbage\n",
+		"only-lf":          "\n",
+		"http2-lf":         "HTTP/2 200\n\n{}",
+		"ssh-banner":       "SSH-2.0-OpenSSH_9.6\n",
+		"only-cr":          "\r",
+		"crlf-only":        "\r\n\r\n",
+		"nul-line":         "\x00\n",
+		"status-then-lf":   "HTTP/1.1 200 OK\n\n",
+		"header-garbage":   "HTTP/1.1 200 OK\r\n:\r\n: \r\nContent-Type\r\nContent-Type:\r\n\r\n{}",
+		"location-garbage": "HTTP/1.1 302 Found\r\nLocation:\r\nLocation: %zz\r\n\r\n",
+		"location-lf":      "HTTP/1.1 302 Found\nLocation: \n\n",
+		"deep-json":        "HTTP/1.1 200 OK\r\n" + ct + "\r\n" + strings.Repeat("{\"a\":", 20000) + "1" + strings.Repeat("}", 20000),
+		"json-bad-utf8":    "HTTP/1.1 200 OK\r\n" + ct + "\r\n{\"type\":\"\xff\xfeNote\"}",
 	}
-	for kind, raw := range garbage {
+	// mutation-based garbage: byte flips, deletions, insertions and truncations of valid responses
+	nMut := c.Share(c.Pick(160, 6000))
+	mr := c.Rand(1<<20, 7)
+	for i := 0; i < nMut; i++ {
+		base := []byte(corpus[mr.Intn(len(corpus))].hops[0]("https://127.0.0.2:1/next").raw)
+		for k, m := 0, 1+mr.Intn(4); k < m && len(base) > 4; k++ {
+			pos := mr.Intn(len(base))
+			switch mr.Intn(5) {
+			case 0:
+				base[pos] = byte(mr.Intn(256))
+			case 1:
+				end := pos + 1 + mr.Intn(12)
+				if end > len(base) {
+					end = len(base)
+				}
+				base = append(base[:pos:pos], base[end:]...)
+			case 2:
+				ins := []string{"\n", "\r", "\r\n\r\n", "\x00", ":", "{", "}", "\"", "HTTP/1.1 200 OK\r\n", "Content-Type: text/html\r\n", "\x1b[2J", "Location: x\r\n"}[mr.Intn(12)]
+				base = append(base[:pos:pos], append([]byte(ins), base[pos:]...)...)
+			case 3:
+				base = base[:pos]
+			case 4:
+				if base[pos] == '\r' {
+					base = append(base[:pos:pos], base[pos+1:]...) // CRLF -> bare LF
+				}
+			}
+		}
+		garbage[fmt.Sprintf("mutated-%d", i)] = string(base)
+	}
+	gkeys := make([]string, 0, len(garbage))
+	for k := range garbage {
+		gkeys = append(gkeys, k)
+	}
+	sort.Strings(gkeys)
+	for _, kind := range gkeys {
+		raw := garbage[kind]
 		n := caseNo
 		caseNo++
-		if !c.Mine(n) {
+		if !strings.HasPrefix(kind, "mutated-") && !c.Mine(n) {
 			continue
 		}
-		raw := raw
 		serial++
 		u := fmt.Sprintf("https://%s/g%d-%d/%s", s.Host(3), c.R.Shard, serial, kind)
 		pu, _ := url.Parse(u)
 		w.set(pu.Host, pu.RequestURI(), sim.Respond([]byte(raw)))
-		jobs = append(jobs, job{fault{Chain: "-", Kind: "garbage:" + kind, Via: []string{"client.FetchURL", "pub.New"}[n%2], Length: len(raw)}, u, 1, kind == "huge-header"})
+		// a mutated response may or may not still be acceptable: only crash, hang and lateness are judged for those
+		jobs = append(jobs, job{fault{Chain: "-", Kind: "garbage:" + strings.SplitN(kind, "-", 2)[0], Via: []string{"client.FetchURL", "pub.New"}[n%2], Length: len(raw)}, u, 1, kind == "huge-header" || strings.HasPrefix(kind, "mutated-") || kind == "http2-lf" || kind == "json-bad-utf8"})
 	}
 	// run the jobs 16 at a time
 	sem := make(chan struct{}, 16)
